@@ -91,4 +91,265 @@ theorem NInv.horizon {cfg : Cfg} {M : List Nat} {adr : Nat → Nat} {n : Net} {v
     obtain ⟨-, -, -, -, -, hH, -, -⟩ := hP
     omega
 
+/-- Address of the station whose turn it is to transmit next. -/
+def NView.turn (v : NView) (M : List Nat) (adr : Nat → Nat) : Nat :=
+  match v.ph with | .pass => cycSucc (adr v.x) M | _ => adr v.x
+
+/-- Outcome of one event. -/
+def NStepOut (cfg : Cfg) (M : List Nat) (adr : Nat → Nat) (n : Net) (v : NView) (i : Nat) (now : Int) : Prop :=
+  ∃ n' v' inc c, n.poll i now = (n', inc, some (.ok c)) ∧ NInv cfg M adr n' v' ∧ v'.tl = now ∧
+    ((c.tx = none ∧ v'.tr = v.tr ∧ v'.turn M adr = v.turn M adr) ∨
+     (∃ b, c.tx = some b ∧ adr i = v.turn M adr ∧ cEnd cfg v.tr + (cfg.b33 : Nat) < now ∧
+        v'.tr = { start := now, sender := i, bytes := b, dropped := false } ∧
+        ((∃ g, b = statusRequestBytes g (adr i) ∧ g ∉ M ∧ v'.turn M adr = adr i) ∨
+         (b = tokenBytes (cycSucc (adr i) M) (adr i) ∧ v'.turn M adr = cycSucc (adr i) M))))
+
+theorem LogOk.seenSet {cfg : Cfg} {M : List Nat} {adr : Nat → Nat} {n : Nat} {b : Bus} (h : LogOk cfg M adr n b) (i : Nat) (now : Int) :
+    LogOk cfg M adr n { b with seen := b.seen.set i now } :=
+  ⟨h.rate, h.corrupt, h.drops, by simp [h.seen], h.chained, h.live, h.kinds⟩
+
+/-- `now ≤ H` at every event: the next transmission is not overdue. -/
+theorem NInv.now_le_H {cfg : Cfg} {M : List Nat} {adr : Nat → Nat} {n : Net} {v : NView} (h : NInv cfg M adr n v)
+    (i : Nat) (now : Int) (e : EvOkN cfg n v.tl i now) : now ≤ v.H := by
+  have hP := h.ph
+  have hgx := e.gap v.x h.xlt
+  unfold PhaseOkN at hP
+  cases hph : v.ph with
+  | hold p1 =>
+    rw [hph] at hP
+    obtain ⟨-, -, -, -, -, hs, hH, -, -⟩ := hP
+    simp only at hs
+    omega
+  | gap g =>
+    rw [hph] at hP
+    obtain ⟨-, -, -, -, -, hs, hH, -⟩ := hP
+    simp only at hs
+    omega
+  | pass =>
+    rw [hph] at hP
+    obtain ⟨-, -, -, -, -, hH, -, hs⟩ := hP
+    obtain ⟨s, hs1, hs2, -⟩ := h.ring.succ_idx v.x h.xlt
+    have := hs s hs1 hs2
+    have := e.gap s hs1
+    simp only at *
+    omega
+
+/-- A listener `j` is polled and stays a listener. -/
+theorem stepL_stay {cfg : Cfg} {M : List Nat} {adr : Nat → Nat} {n : Net} {v : NView} (h : NInv cfg M adr n v)
+    (hok : cfg.Ok) (j : Nat) (hjx : j ≠ v.x) (now : Int) (e : EvOkN cfg n v.tl j now) (st : NetStation)
+    (hst : n.stations[j]? = some st) (hLold : LOk cfg M adr n.bus v.H v.Lo j st) (inc : Bytes) (c : Ctx)
+    (hd : n.bus.deliver j now = ({ n.bus with seen := n.bus.seen.set j now }, inc))
+    (hp : st.s.poll [] now (n.bus.transmitting j now) (st.rx ++ inc) = .ok c) (htx : c.tx = none)
+    (hL : LOk cfg M adr { n.bus with seen := n.bus.seen.set j now } v.H v.Lo j (upSt st c)) :
+    NStepOut cfg M adr n v j now := by
+  have hp' : st.s.poll st.apps now (Bus.transmitting { n.bus with seen := n.bus.seen.set j now } j now) (st.rx ++ inc) = .ok c := by
+    rw [hLold.1.apps, transmitting_seen]; exact hp
+  have hpe := Net.poll_eq n j now st _ inc c hst hLold.1.alive hLold.1.online hd hp'
+  rw [htx] at hpe
+  have hjl : j < n.stations.length := e.ilt
+  have hjs : j < n.bus.seen.length := by rw [h.log.seen]; exact hjl
+  have htl := e.tl
+  have hown := e.own
+  refine ⟨_, { v with tl := now }, inc, c, hpe, ?_, rfl, .inl ⟨htx, rfl, rfl⟩⟩
+  refine ⟨by simp only [List.length_set]; exact h.ring, by simp only [List.length_set]; exact h.xlt, ?_, h.okx,
+    by simp only [List.length_set]; exact h.log.seenSet j now, h.txs, ?_, h.ownX, ?_, ?_, ?_, h.pbx, h.rxx, ?_⟩
+  · simp only; rw [List.getElem?_set_ne hjx]; exact h.gx
+  · intro o ho
+    simp only
+    rw [seen_set_other _ _ _ _ hjx]
+    exact h.doneX o ho
+  · intro j' hj' hj'x
+    simp only [List.length_set] at hj'
+    by_cases hjj : j' = j
+    · rw [hjj]
+      exact ⟨upSt st c, List.getElem?_set_self hjl, hL⟩
+    · obtain ⟨st', hst', hL'⟩ := h.lis j' hj' hj'x
+      refine ⟨st', by simp only; rw [List.getElem?_set_ne (Ne.symm hjj)]; exact hst', hL'.other j now (Ne.symm hjj)⟩
+  · intro j' hj'
+    simp only [List.length_set] at hj'
+    simp only
+    by_cases hjj : j' = j
+    · subst hjj; rw [seen_set_self _ _ _ hjs]; exact Int.le_refl _
+    · rw [seen_set_other _ _ _ _ (Ne.symm hjj)]; exact Int.le_trans (h.tls j' hj') htl
+  · intro t ht; exact Int.le_trans (h.tlt t ht) htl
+  · -- the phase facts: only `seen j` changed
+    have hP := h.ph
+    unfold PhaseOkN at hP ⊢
+    simp only [List.length_set]
+    cases hph : v.ph with
+    | hold p1 =>
+      rw [hph] at hP
+      simp only at hP ⊢
+      rw [seen_set_other _ _ _ _ hjx]
+      exact hP
+    | gap g =>
+      rw [hph] at hP
+      simp only at hP ⊢
+      rw [seen_set_other _ _ _ _ hjx]
+      exact hP
+    | pass =>
+      rw [hph] at hP
+      simp only at hP ⊢
+      rw [seen_set_other _ _ _ _ hjx]
+      obtain ⟨a1, a2, a3, a4, a5, a6, a7, a8⟩ := hP
+      refine ⟨a1, a2, a3, a4, a5, a6, a7, ?_⟩
+      intro s hs hsa
+      by_cases hsj : s = j
+      · subst hsj
+        rw [seen_set_self _ _ _ hjs]
+        -- the token for `s` is the last transmission and `s` is still a listener: it is incomplete
+        obtain ⟨hokS, dn, rs, idle, l, h1, h2, h3, h4, h5, h0, h6, h7, h8, h9, hF, h10⟩ := hL
+        simp only at h1 h2 h6 hF
+        rw [seen_set_self _ _ _ hjs] at h2 h6
+        have hrsne := hF ⟨v.tr, adr v.x, h.last, by rw [a2, hsa]⟩
+        have hc := h.log.chained
+        rw [h1] at hc
+        have hcrs : CChained cfg rs := (List.pairwise_append.1 hc).2.1
+        have hposrs : ∀ t ∈ rs, 0 < t.bytes.length := fun t ht =>
+          (TxKind.wire h.ring (h.log.kinds t (by rw [h1]; exact List.mem_append_right _ ht))).2.2
+        have hafter := rs_end_after cfg rs now hcrs hposrs h6
+        have hlast := h.last
+        rw [h1, List.getLast?_append] at hlast
+        cases hg : rs.getLast? with
+        | none => exact absurd (List.getLast?_eq_none_iff.1 hg) hrsne
+        | some t2 =>
+          rw [hg] at hlast
+          have : t2 = v.tr := by simpa using hlast
+          subst this
+          exact hafter _ (List.mem_of_getLast? hg)
+      · rw [seen_set_other _ _ _ _ (Ne.symm hsj)]
+        exact a8 s hs hsa
+
+/-- A listener `j` is polled and accepts the token: it becomes the station whose turn it is; the previous
+one becomes a (supervising) listener. -/
+theorem stepL_accept {cfg : Cfg} {M : List Nat} {adr : Nat → Nat} {n : Net} {v : NView} (h : NInv cfg M adr n v)
+    (hok : cfg.Ok) (j : Nat) (hjx : j ≠ v.x) (now : Int) (e : EvOkN cfg n v.tl j now) (st : NetStation)
+    (hst : n.stations[j]? = some st) (hLold : LOk cfg M adr n.bus v.H v.Lo j st) (inc : Bytes) (c : Ctx)
+    (hd : n.bus.deliver j now = ({ n.bus with seen := n.bus.seen.set j now }, inc))
+    (hp : st.s.poll [] now (n.bus.transmitting j now) (st.rx ++ inc) = .ok c) (htx : c.tx = none)
+    (htok : ∃ t a, n.bus.txs.getLast? = some t ∧ t.bytes = tokenBytes (adr j) a)
+    (hokS : StOkN cfg M (upSt st c) (adr j)) (hcst : c.s.st = .useToken ⟨now, none⟩ false)
+    (hcl : c.s.lastBusActivity = some now) (hcp : c.s.pendingBytes = 0) (hcr : c.rx = [])
+    (hdone : ∀ o ∈ n.bus.txs, o.sender = j ∨ cEnd cfg o ≤ now)
+    (hown : ∀ o ∈ n.bus.txs, o.sender = j → cEnd cfg o ≤ now + 1) :
+    NStepOut cfg M adr n v j now := by
+  have hp' : st.s.poll st.apps now (Bus.transmitting { n.bus with seen := n.bus.seen.set j now } j now) (st.rx ++ inc) = .ok c := by
+    rw [hLold.1.apps, transmitting_seen]; exact hp
+  have hpe := Net.poll_eq n j now st _ inc c hst hLold.1.alive hLold.1.online hd hp'
+  rw [htx] at hpe
+  have hjl : j < n.stations.length := e.ilt
+  have hjs : j < n.bus.seen.length := by rw [h.log.seen]; exact hjl
+  have htl := e.tl
+  have hgj := e.gap j hjl
+  have hmar := hok.margin
+  have hc2 := cfg.ce2 hok.rate
+  have haj := h.ring.lt j hjl
+  have hax := h.ring.lt v.x h.xlt
+  -- the phase is `pass` and `j` is the successor
+  obtain ⟨t, a, hlt, hbt⟩ := htok
+  have htr : t = v.tr := by rw [h.last] at hlt; exact (Option.some.inj hlt).symm
+  subst htr
+  have hP := h.ph
+  unfold PhaseOkN at hP
+  cases hph : v.ph with
+  | hold p1 =>
+    exfalso
+    rw [hph] at hP
+    obtain ⟨-, -, ⟨a', ha'⟩, -⟩ := hP
+    rw [ha'] at hbt
+    have := h.ring.ring.bound _ (h.ring.mem j hjl)
+    have e1 : UInt8.ofNat (adr v.x) = UInt8.ofNat (adr j) := by
+      unfold tokenBytes sendToken at hbt; simp only [List.cons.injEq, and_true, true_and] at hbt; exact hbt.1
+    have e2 := congrArg UInt8.toNat e1
+    rw [u8n _ (by omega), u8n _ (by omega)] at e2
+    exact hjx (h.ring.inj j v.x hjl h.xlt e2.symm)
+  | gap g =>
+    exfalso
+    rw [hph] at hP
+    obtain ⟨-, hb, -⟩ := hP
+    rw [hb] at hbt
+    exact statusRequest_ne_token _ _ _ _ hbt
+  | pass =>
+    rw [hph] at hP
+    obtain ⟨a1, a2, a3, a4, a5, a6, a7, a8⟩ := hP
+    simp only at a5 a8
+    have hsm := h.ring.ring.bound _ (cycSucc_mem _ M (h.ring.mem v.x h.xlt))
+    have hsucc : cycSucc (adr v.x) M = adr j := by
+      rw [a2] at hbt
+      have e1 : UInt8.ofNat (cycSucc (adr v.x) M) = UInt8.ofNat (adr j) := by
+        unfold tokenBytes sendToken at hbt; simp only [List.cons.injEq, and_true, true_and] at hbt; exact hbt.1
+      have e2 := congrArg UInt8.toNat e1
+      rw [u8n _ (by omega), u8n _ (by omega)] at e2
+      exact e2
+    have hlen : v.tr.bytes.length = 3 := by rw [a2]; rfl
+    have hce : cEnd cfg v.tr = v.tr.start + ((cfg.ce 2 : Nat) : Int) := by unfold cEnd; rw [hlen]
+    have hsj : n.bus.seen.getD j 0 < v.tr.start + ((cfg.ce 2 : Nat) : Int) := by
+      have := a8 j hjl hsucc.symm
+      rw [hce] at this
+      exact this
+    have hend : cEnd cfg v.tr ≤ now := by
+      rcases hdone v.tr (by rw [h.txs]; simp) with hs | hs
+      · exact absurd (a1.symm.trans hs) (Ne.symm hjx)
+      · exact hs
+    refine ⟨_, { x := j, sx := upSt st c, pre := v.pre, tr := v.tr, ph := .hold now,
+                 H := now + (cfg.b33 : Nat) + (cfg.P : Nat), Lo := now + (cfg.b33 : Nat), tl := now },
+      inc, c, hpe, ?_, rfl, .inl ⟨htx, rfl, ?_⟩⟩
+    · refine ⟨by simp only [List.length_set]; exact h.ring, by simp only [List.length_set]; exact hjl,
+        List.getElem?_set_self hjl, hokS, by simp only [List.length_set]; exact h.log.seenSet j now, h.txs, ?_, ?_, ?_, ?_, ?_,
+        hcp, hcr, ?_⟩
+      · intro o ho
+        simp only
+        rw [seen_set_self _ _ _ hjs]
+        exact hdone o ho
+      · intro l hl o ho hs
+        have hl' : c.s.lastBusActivity = some l := hl
+        rw [hcl] at hl'; cases hl'
+        exact hown o ho hs
+      · intro j' hj' hj'j
+        simp only [List.length_set] at hj'
+        by_cases hjx' : j' = v.x
+        · -- the previous holder: a supervising listener that has everything
+          rw [hjx']
+          refine ⟨v.sx, by simp only; rw [List.getElem?_set_ne hjx]; exact h.gx, h.okx, n.bus.txs, [], false,
+            v.tr.start + (cfg.b33 : Nat), by simp, ?_⟩
+          simp only
+          rw [seen_set_other _ _ _ _ hjx]
+          refine ⟨h.doneX, (fun t ht => by cases ht), h.rxx, (by rw [h.pbx]; exact Nat.zero_le _), h.ownX _ a4,
+            (fun t rest hrs => by cases hrs), a4, .inr ⟨(fun t ht => by cases ht), (by rw [hce] at hend; omega)⟩,
+            (fun t ht => by cases ht), ?_, ?_⟩
+          · intro hex
+            exfalso
+            obtain ⟨t', a', hlt', hbt'⟩ := hex
+            have : t' = v.tr := by rw [h.last] at hlt'; exact (Option.some.inj hlt').symm
+            subst this
+            rw [a2] at hbt'
+            have e1 : UInt8.ofNat (cycSucc (adr v.x) M) = UInt8.ofNat (adr v.x) := by
+              unfold tokenBytes sendToken at hbt'; simp only [List.cons.injEq, and_true, true_and] at hbt'; exact hbt'.1
+            have e2 := congrArg UInt8.toNat e1
+            rw [u8n _ (by omega), u8n _ (by omega)] at e2
+            exact h.ring.two _ (h.ring.mem v.x h.xlt) e2
+          · simp only [Bool.false_eq_true, if_false]
+            refine ⟨a3, ?_⟩
+            unfold nextArr
+            simp only
+            omega
+        · obtain ⟨st', hst', hL'⟩ := h.lis j' hj' hjx'
+          refine ⟨st', by simp only; rw [List.getElem?_set_ne (Ne.symm hj'j)]; exact hst', ?_⟩
+          exact (hL'.other j now (Ne.symm hj'j)).mono (by rw [a6, hce]; simp only; omega) (by rw [a7]; simp only; omega)
+      · intro j' hj'
+        simp only [List.length_set] at hj'
+        simp only
+        by_cases hjj : j' = j
+        · rw [hjj, seen_set_self _ _ _ hjs]; exact Int.le_refl _
+        · rw [seen_set_other _ _ _ _ (Ne.symm hjj)]; exact Int.le_trans (h.tls j' hj') htl
+      · intro t ht; exact Int.le_trans (h.tlt t ht) htl
+      · unfold PhaseOkN
+        simp only
+        rw [seen_set_self _ _ _ hjs]
+        unfold upSt
+        simp only
+        refine ⟨⟨_, _, hcst⟩, hcl, ⟨a, hbt⟩, hend, Int.le_refl _, by omega, trivial, trivial, by omega⟩
+    · unfold NView.turn
+      simp only [hph, hsucc]
+
 end PV
